@@ -202,6 +202,9 @@ pub struct SendOpts {
 	pub part_cltv: Option<Vec<u32>>,
 	/// route the last hop of a two-hop payment over the forwarder's intercept scid (LSP-style forward)
 	pub intercept: bool,
+	/// register with an expiry of one second (and this custom minimum final CLTV delta, if any), then let block
+	/// time pass until the registration has expired before the payment is sent: it must be refused
+	pub expired: Option<Option<u16>>,
 	pub class: &'static str,
 }
 
@@ -1113,8 +1116,17 @@ impl World {
 		let reg = match opts.reg {
 			Some(r) => r,
 			None => {
-				let (hash, secret, _) = self.nodes[dst].mgr.create_inbound_payment(opts.min_value, 7200, None, None).map_err(|_| "create_inbound_payment failed".to_string())?;
+				let (expiry_secs, custom_cltv) = match opts.expired {
+					Some(c) => (1u32, c),
+					None => (7200u32, None),
+				};
+				let (hash, secret, _) = self.nodes[dst].mgr.create_inbound_payment(opts.min_value, expiry_secs, custom_cltv, None).map_err(|_| "create_inbound_payment failed".to_string())?;
 				self.regs.push(Registration { idx: self.regs.len(), dst, hash, secret, min_value: opts.min_value, step: self.step });
+				if opts.expired.is_some() {
+					// block time (600 s per block) passes the expiry and the two hours the library adds to it
+					self.note(format!("EXPIRE registration {} of node{} (custom final cltv delta {:?}): 15 blocks pass", self.regs.len() - 1, dst, custom_cltv));
+					self.mine(15);
+				}
 				self.regs.len() - 1
 			},
 		};
@@ -1124,6 +1136,9 @@ impl World {
 		if let Some(o) = opts.secret_of_reg {
 			secret = self.regs[o].secret;
 			secret_ok = o == reg;
+		}
+		if opts.expired.is_some() {
+			secret_ok = false;
 		}
 		if let Some(bit) = opts.secret_flip {
 			secret.0[(bit / 8) as usize] ^= 1 << (bit % 8);
